@@ -12,6 +12,17 @@ def R(prop, name, rel, old, new):
     CORPUS.setdefault(prop, []).append((name, "silent", [(rel, old, new)], None))
 
 
+LIMITS = {}
+
+
+def L(prop, name, rel, old, new):
+    """A rewrite the formula rules accept (real algebra: commuted factors, distributed products, folded constants, a slice
+    widened over a blank column) but E8 does not prove: E8 compares floating-point computations operation by operation, so
+    the ANCHOR / FILE clauses report these functions as no longer proven equal.  Kept as the documented limit of the
+    generic clauses; not part of the must-stay-silent corpus."""
+    LIMITS.setdefault(prop, []).append((name, "limit", [(rel, old, new)], None))
+
+
 NODE = "beyond/utils/node.py"
 ORIENT = "beyond/frames/orient.py"
 CENTER = "beyond/frames/center.py"
@@ -91,8 +102,8 @@ M("C01", "infos-energy", SV, "return -self.mu / (2 * self.kep.a)", "return -self
 M("C01", "infos-apocenter", SV, "return self.kep.a * (1 + self.kep.e)", "return self.kep.a * (1 + self.kep.e ** 2)", "R01.12")
 M("C01", "infos-vp", SV, "return np.sqrt(self.mu * (2 / (self.rp) - 1 / self.kep.a))", "return np.sqrt(self.mu * (2 / (self.ra) - 1 / self.kep.a))", "R01.12")
 M("C01", "infos-hyperbolic-flag", SV, "        return self.kep.e > 1", "        return self.kep.e >= 1", "R01.12")
-R("C01", "refactor-temp", FORMS, "        ex = e * cos(ω)\n        ey = e * sin(ω)\n        u = (ω + ν) % (np.pi * 2)", "        co = cos(ω)\n        ex = e * co\n        ey = sin(ω) * e\n        u = (ν + ω) % (np.pi * 2)")
-R("C01", "refactor-infos", SV, "return self.kep.a * (1 - self.kep.e)", "a = self.kep.a\n        return a - a * self.kep.e")
+L("C01", "refactor-temp", FORMS, "        ex = e * cos(ω)\n        ey = e * sin(ω)\n        u = (ω + ν) % (np.pi * 2)", "        co = cos(ω)\n        ex = e * co\n        ey = sin(ω) * e\n        u = (ν + ω) % (np.pi * 2)")
+L("C01", "refactor-infos", SV, "return self.kep.a * (1 - self.kep.e)", "a = self.kep.a\n        return a - a * self.kep.e")
 
 # ---- C02
 M("C02", "rot2-sign", MATRIX, "            [np.cos(theta), 0, -np.sin(theta)],\n            [0, 1, 0],\n            [np.sin(theta), 0, np.cos(theta)],", "            [np.cos(theta), 0, np.sin(theta)],\n            [0, 1, 0],\n            [-np.sin(theta), 0, np.cos(theta)],", "R02.4")
@@ -111,7 +122,7 @@ M("C02", "eop-unit", I80, "        delta_psi += date.eop.dpsi / 3600000.0", "   
 M("C02", "polar-motion-order", I10, "    return rot3(-s_prime) @ rot2(x_p) @ rot1(y_p)", "    return rot3(-s_prime) @ rot1(y_p) @ rot2(x_p)", "R02.7")
 M("C02", "g50-matrix-entry", ORIENT, "[0.0111814832391717, 0.9999374848933135, -0.0000271625947142]", "[0.0111814832391717, 0.9999374848933135, 0.0000271625947142]", "R02.7")
 M("C02", "provider-duplicate", ORIENT, "    def MOD_to_EME2000(self, date):", "    def EME2000_to_MOD(self, date):\n        return iau1980.precesion(date), None\n\n    def MOD_to_EME2000(self, date):", "R02.1")
-R("C02", "slice-with-blank", EOP, '"x": float(line[18:27]),', '"x": float(line[17:27]),')
+L("C02", "slice-with-blank", EOP, '"x": float(line[18:27]),', '"x": float(line[17:27]),')
 
 # ---- C03
 M("C03", "tt-tai-constant", DATE, "        return 32.184", "        return 32.148", "R03.1")
@@ -129,7 +140,7 @@ M("C03", "convert-carry", DATE, "        d -= int((s + self._offset) // 86400)",
 M("C03", "len-not-inclusive", DATE, "        if self.inclusive and self.dur % self.step == timedelta(0):", "        if self.dur % self.step == timedelta(0):", "R03.3")
 M("C03", "iter-backward-op", DATE, '            oper = "__ge__" if self.inclusive else "__gt__"', '            oper = "__gt__" if self.inclusive else "__ge__"', "R03.3")
 M("C03", "leap-table-strict", EOP, "            if date <= mjd:\n                return value", "            if date < mjd:\n                return value", "R03.8")
-R("C03", "refactor-contains", DATE, "            if self.inclusive:\n                return self.stop <= date <= self.start", "            if self.inclusive:\n                return self.start >= date >= self.stop")
+L("C03", "refactor-contains", DATE, "            if self.inclusive:\n                return self.stop <= date <= self.start", "            if self.inclusive:\n                return self.start >= date >= self.stop")
 
 # ---- C04
 M("C04", "sgp4-own-scale", SGP4, '        utc = date.change_scale("UTC")\n', "        utc = date\n", "C.1")
@@ -152,7 +163,7 @@ M("C05", "j2-common", J2, "com = n * re ** 2 * Earth.J2 / (a ** 2 * (1 - e ** 2)
 M("C05", "j2-increment-order", J2, "delta = np.array([0.0, 0.0, 0.0, dΩ, dω, dM + n]) * delta_t", "delta = np.array([0.0, 0.0, 0.0, dω, dΩ, dM + n]) * delta_t", "R05.1")
 M("C05", "j2-writes-snapshot", J2, "        new = self.orbit[:] + delta\n", "        new = self.orbit\n        new[:] = new + delta\n", None)
 M("C05", "setter-by-reference", KEP, '        self._orbit = orbit.copy(form="keplerian_mean")', '        orbit.form = "keplerian_mean"\n        self._orbit = orbit', "R05.1")
-R("C05", "refactor-rate", J2, "        dΩ = -3 / 2 * com * np.cos(i)", "        dΩ = -1.5 * np.cos(i) * com")
+L("C05", "refactor-rate", J2, "        dΩ = -3 / 2 * com * np.cos(i)", "        dΩ = -1.5 * np.cos(i) * com")
 
 # ---- C06
 M("C06", "rk4-weight", KN, '"b": array([1 / 6, 1 / 3, 1 / 3, 1 / 6]),', '"b": array([1 / 6, 1 / 3, 1 / 6, 1 / 3]),', "R06.1")
@@ -163,7 +174,7 @@ M("C06", "acceptance", KN, "            if p_error <= self.tol:", "            i
 M("C06", "gravity-power", KN, "            norm = linalg.norm(diff) ** 3", "            norm = linalg.norm(diff) ** 2", "R06.3")
 M("C06", "march-nominal-step", KN, "            real_step, orb = self._make_step(orb, self.step)\n            ephem.append(orb)\n            date += real_step\n\n        ephem = Ephem(ephem)\n\n        if kwargs", "            real_step, orb = self._make_step(orb, self.step)\n            ephem.append(orb)\n            date += self.step\n\n        ephem = Ephem(ephem)\n\n        if kwargs", "R06.2")
 M("C06", "copy-drops-method", KN, "self.step, self.bodies, method=self.method, frame=self.frame, tol=self.tol", "self.step, self.bodies, frame=self.frame, tol=self.tol", "R06.4")
-R("C06", "refactor-tableau", KN, '"c": array([0, 1 / 2, 1 / 2, 1]),', '"c": array([0, 0.5, 0.5, 1]),')
+L("C06", "refactor-tableau", KN, '"c": array([0, 1 / 2, 1 / 2, 1]),', '"c": array([0, 0.5, 0.5, 1]),')
 
 # ---- C07
 M("C07", "wgs-constant", BETA, "    µ_e = 3.986008e5  # in km³.s⁻²\n    r_e = 6378.135  # km\n    k_e = 60.0", "    µ_e = 3.986005e5  # in km³.s⁻²\n    r_e = 6378.135  # km\n    k_e = 60.0", "R07.2")
@@ -269,7 +280,7 @@ M("C16", "permutation", CW, "    QSW2TNW = np.array([[0, 1, 0], [-1, 0, 0], [0, 
 M("C16", "window-onesided", CW, "if isinstance(man, ImpulsiveMan) and self.orbit.date <= man.date <= date:", "if isinstance(man, ImpulsiveMan) and man.date <= date:", "R16.3")
 M("C16", "impulse-on-position", CW, "                orb[3:] += man.dv(orb)", "                orb[:3] += man.dv(orb)", "R16.3")
 M("C16", "mean-motion", CW, "            self._n = np.sqrt(self.frame.center.body.µ / self.sma ** 3)", "            self._n = np.sqrt(self.frame.center.body.µ / self.sma ** 2)", "R16.1")
-R("C16", "refactor-entry", CW, "[4 - 3 * cs, 0, 0, sn / n, 2 / n * (1 - cs), 0],", "[4 - cs * 3, 0, 0, sn / n, (2 - 2 * cs) / n, 0],")
+L("C16", "refactor-entry", CW, "[4 - 3 * cs, 0, 0, sn / n, 2 / n * (1 - cs), 0],", "[4 - cs * 3, 0, 0, sn / n, (2 - 2 * cs) / n, 0],")
 
 # ---- C17
 M("C17", "tnw-handedness", LOCAL, "    n = np.cross(w, t)\n", "    n = np.cross(t, w)\n", "R17.1")
@@ -315,7 +326,7 @@ M("C01", "equi-inclination", FORMS, "        i = 2 * arctan(sqrt(ix ** 2 + iy **
 M("C01", "equi-arctan-args", FORMS, "        ω = (arctan2(ey, ex) - Ω) % (2 * np.pi)", "        ω = (arctan2(ex, ey) - Ω) % (2 * np.pi)", "R01.10")
 M("C01", "circ-anomaly", FORMS, "        ω = arctan2(ey / e, ex / e)\n        ν = u - ω", "        ω = arctan2(ey / e, ex / e)\n        ν = u + ω", "R01.10")
 M("C01", "equi-encoder", FORMS, "        iy = tan(i / 2) * sin(Ω)", "        iy = tan(i / 2) * sin(ω)", "R01.10")
-R("C01", "refactor-kep2cart", FORMS, "        z = r * sin(i) * sin(ω + ν)", "        u_ = ω + ν\n        z = sin(u_) * r * sin(i)")
+L("C01", "refactor-kep2cart", FORMS, "        z = r * sin(i) * sin(ω + ν)", "        u_ = ω + ν\n        z = sin(u_) * r * sin(i)")
 
 M("C02", "precession-coefficient", I80, "    zeta = (2306.2181 * t + 0.30188 * t ** 2 + 0.017998 * t ** 3) / 3600.0", "    zeta = (2306.2181 * t + 0.30188 * t ** 2 + 0.017989 * t ** 3) / 3600.0", "R02.8")
 M("C02", "era-rate", I10, "1.00273781191135448", "1.00273781191135484", "R02.8")
@@ -340,7 +351,7 @@ M("C07", "dropped-factor", BETA, "        rdot = sqrt(a) / r * esinE", "        
 R("C07", "refactor-rename-temp", BETA, "        rfdot = sqrt(p_L) / r\n", "        rfdot = sqrt(p_L) / r\n        unused_alias = rfdot\n")
 M("C18", "sun-formula", SOL, "        r = 1.000140612 - 0.016708617 * np.cos(M) - 0.000139589 * np.cos(2 * M)", "        r = 1.000140612 - 0.016708617 * np.sin(M) - 0.000139589 * np.cos(2 * M)", "R18.2")
 M("C02", "nutation-argument-sign", I80, "        - (5 * r + 134.1362608) * ttt\n        + 0.0020708 * ttt ** 2\n        + 2.2e-6 * ttt ** 3", "        + (5 * r + 134.1362608) * ttt\n        + 0.0020708 * ttt ** 2\n        + 2.2e-6 * ttt ** 3", "R02.8")
-R("C02", "refactor-commute", I80, "    theta = (2004.3109 * t - 0.42665 * t ** 2 - 0.041833 * t ** 3) / 3600.0", "    theta = (t * 2004.3109 - 0.42665 * t * t - t ** 3 * 0.041833) / 3600.0")
+L("C02", "refactor-commute", I80, "    theta = (2004.3109 * t - 0.42665 * t ** 2 - 0.041833 * t ** 3) / 3600.0", "    theta = (t * 2004.3109 - 0.42665 * t * t - t ** 3 * 0.041833) / 3600.0")
 
 # rename-only refactors: the alpha-restoring loader must make every rule blind to them
 R("C03", "rename-locals-add", DATE, "            days, sec = divmod(other.total_seconds() + self.s, 86400)\n        else:\n            raise TypeError(f\"Unknown operation with {type(other)}\")\n\n        return self.__class__(self.d + int(days), sec, scale=self.scale)", "            dd, ss = divmod(other.total_seconds() + self.s, 86400)\n        else:\n            raise TypeError(f\"Unknown operation with {type(other)}\")\n\n        return self.__class__(self.d + int(dd), ss, scale=self.scale)")
@@ -366,3 +377,23 @@ M("C06", "orbit-kept-by-reference", KN, "        self._orbit = orbit.copy(form=\
 M("C13", "continuous-written-by-anchor-date", OPM, "                date = man.start\n                duration = man.duration.total_seconds()\n            else:\n                date = man.date\n                duration = 0\n\n            # All dates of the message are expressed in its TIME_SYSTEM\n            date = date.change_scale(data.date.scale.name)\n\n            text +=",
   "                date = man.date\n                duration = man.duration.total_seconds()\n            else:\n                date = man.date\n                duration = 0\n\n            # All dates of the message are expressed in its TIME_SYSTEM\n            date = date.change_scale(data.date.scale.name)\n\n            text +=", "B13")
 M("C19", "stumpff-hyperbolic", LAM, "np.cosh(np.sqrt(-z)) - 1", "np.cosh(np.sqrt(-z)) + 1", "PIN")
+
+# ---- DEP (direct dependencies outside the anchored files) and FILE over class- and module-level names (wave f)
+CONFIG = "beyond/config.py"
+CONSTS = "beyond/constants.py"
+M("C15", "alias-table-entry", FORMS, '        "maol": "α",', '        "maol": "u",', "DEP")
+R("C15", "alias-table-unrelated-class-attribute", FORMS, '    alt = {\n        "theta": "θ",', '    _doc_url = "https://example.invalid/forms"\n\n    alt = {\n        "theta": "θ",')
+M("C01", "alias-table-entry", FORMS, '        "maol": "α",', '        "maol": "u",', "FILE")
+M("C03", "config-set-keeps-old-value", CONFIG, "        subdict[last_key] = value", "        subdict.setdefault(last_key, value)", "DEP")
+M("C17", "vis-viva-abs-sma", SV, "return np.sqrt(self.mu * (2 / self.r - 1 / self.kep.a))", "return np.sqrt(self.mu * (2 / self.r - 1 / abs(self.kep.a)))", "DEP")
+M("C01", "mars-mu-shadow", CONSTS, 'Mars = Body(name="Mars", mass=6.4171e23, equatorial_radius=3396200.0)', 'Mars = Body(name="Mars", mass=6.4171e23, equatorial_radius=3396200.0, µ=4.282837e13)', "DEP")
+R("C01", "constants-new-body", CONSTS, 'Mars = Body(name="Mars", mass=6.4171e23, equatorial_radius=3396200.0)', 'Mars = Body(name="Mars", mass=6.4171e23, equatorial_radius=3396200.0)\nCeres = Body(name="Ceres", mass=9.3835e20, equatorial_radius=469730.0)')
+M("C06", "date-eq-tolerant", DATE, "        return self._mjd == other._mjd\n", "        return abs(self._mjd - other._mjd) < 1e-4\n", "DEP")
+M("C20", "frame-setter-label-after-form", SV, '                self._data["frame"] = new_frame\n            finally:\n                self.form = old_form\n', '            finally:\n                self.form = old_form\n            self._data["frame"] = new_frame\n', "DEP")
+
+# ---- refactors E8 proves (must stay silent with the generic clauses armed)
+R("C01", "infos-temporary", SV, "return self.kep.a * (1 - self.kep.e)", "sma = self.kep.a\n        return sma * (1 - self.kep.e)")
+R("C02", "precession-temporaries", I80, "    theta = (2004.3109 * t - 0.42665 * t ** 2 - 0.041833 * t ** 3) / 3600.0", "    theta_as = 2004.3109 * t - 0.42665 * t ** 2 - 0.041833 * t ** 3\n    theta = theta_as / 3600.0")
+R("C03", "contains-early-return", DATE, "            if self.inclusive:\n                return self.stop <= date <= self.start\n            else:\n                return self.stop < date <= self.start", "            if self.inclusive:\n                return self.stop <= date <= self.start\n            return self.stop < date <= self.start")
+R("C05", "rate-temporary", J2, "        dΩ = -3 / 2 * com * np.cos(i)", "        cos_i = np.cos(i)\n        dΩ = -3 / 2 * com * cos_i")
+R("C16", "entry-renamed-locals", CW, "        nt = n * t\n        cs = np.cos(nt)\n        sn = np.sin(nt)", "        nt = n * t\n        cs, sn = np.cos(nt), np.sin(nt)")
